@@ -115,6 +115,19 @@ class AddNominal(Op):
                         yield (m, t, ("U", 0, k, 0, 0, 0, 0))
                     for k in [1, -1, 4, -4, 100, 3]:
                         yield (m, t, ("U", k, 0, 0, 0, 0, 0))
+        # the EXACT part carries the point onto a clamp-prone date (29 Feb, a 31st, day 366, week 53) or off it, and
+        # only then the months / years are applied - to the date after the exact part, not to the operand's
+        for m in oracle.MODES:
+            for y in gens.shard_filter([2020, 2019, 2000, 2004, 1900, 0, 4], self.shard):
+                for target in clamp_points(m, y)[::2] + [("c", y, 2, oracle.month_len(m, y, 2)), ("o", y, oracle.year_len(m, y))]:
+                    tgt = (target + (0,) if target[0] == "o" else target) + (12, 0, 0, 0, 0)
+                    if not T.valid(m, tgt):
+                        continue
+                    for (d, h) in ((1, 0), (-1, 0), (0, 13), (0, -13), (2, 0), (0, 36)):
+                        start = T.tp_from_inst(m, T.inst(m, tgt) - 86400 * d - 3600 * h, tgt[0], 0, 0)
+                        for (yy, mo) in ((1, 0), (-1, 0), (4, 0), (0, 1), (0, -1), (1, 1), (0, 12)):
+                            if rng.random() < (0.25 if tier == "quick" else 1.0):
+                                yield (m, start, ("U", yy, mo, d, h, 0, 0))
         # year steps that LAND on a distinguished year (0 - falsy in Python, yet leap -, the years around it,
         # century / 400-year rule years, the 4-digit limit) from the dates a clamp may or may not apply to
         targets = [0, 1, -1, 4, -4, 100, -100, 400, -400, 1900, 2000, 2100, 9999, 10000]
